@@ -64,9 +64,10 @@ class TableReaderBase(list):
 
     hx,hy = self[highidx]
 
-    m = (hy-ly)/(hx - lx)
-    c = ly - (m*lx)
-    return (m*x) + c
+    # Weighted mean of the two neighbours. The slope-intercept form (m*x + c) loses the interval's resolution
+    # when x is large compared with the spacing and overflows in c for finite data.
+    t = (x - lx)/(hx - lx)
+    return ly*(1.0-t) + hy*t
 
   def _findIndex(self, x):
     """Returns the index of the last x value in this object that is less than x.
